@@ -48,6 +48,7 @@ THEOREMS = [
     "Qentem.BigInt.and_small_spec",
     "Qentem.BigInt.and_wide_spec",
     "Qentem.BigInt.cmpWord_spec",
+    "Qentem.BigInt.rcmpWord_spec",
     "Qentem.BigInt.isBig_spec",
     "Qentem.BigInt.number_spec",
     "Qentem.BigInt.narrow_small_spec",
@@ -201,8 +202,21 @@ def gen_sequence(rng, W, n, length):
             k = shift_amount(rng, W, n, v, False) if rng.random() < 0.5 else rng.randrange(0, max(1, v.bit_length() + 2))
             ops.append("sr:%d" % k); v = v >> k if k < 2 * total + 64 else 0
         elif r < 0.88:
-            x = word_operand(rng, W) if rng.random() < 0.6 else (v & wtop)
-            ops.append("%s:%d" % (rng.choice(["lt", "le", "gt", "ge", "eq", "ne"]), x))
+            # forward (object OP x) and reversed (x OP object) forms with the same operand; the operand is
+            # often the low word of the value itself or its neighbours (equality boundary)
+            q = rng.random()
+            if q < 0.45:
+                x = word_operand(rng, W)
+            elif q < 0.8:
+                x = v & wtop
+            else:
+                x = ((v & wtop) + rng.choice([-1, 1])) & wtop
+            rel = rng.choice(["lt", "le", "gt", "ge", "eq", "ne"])
+            ops.append("%s:%d" % (rel, x))
+            ops.append("r%s:%d" % (rel, x))
+            if rng.random() < 0.5:
+                rel2 = rng.choice(["lt", "le", "gt", "ge", "eq", "ne"])
+                ops.append("r%s:%d" % (rel2, x))
         elif r < 0.92:
             ops.append(rng.choice(["ib", "nz", "iz", "nu"]))
         elif r < 0.95:
